@@ -511,18 +511,18 @@ def run(ctx, drv):
     ]
     rng = ctx.rng
     eval_quote(ctx, drv)
-    kws = FIXED + [gen_kwargs(rng) for _ in range(ctx.n(6000, 300000))]
+    kws = FIXED + [gen_kwargs(rng) for _ in range(ctx.n(20000, 300000))]
     eval_magnets(ctx, drv, kws)
     # parser model on mangled links
     torf = common.import_torf()
     base = []
-    for kw in kws[:ctx.n(2500, 60000)]:
+    for kw in kws[:ctx.n(8000, 60000)]:
         try:
             base.append(str(torf.Magnet(**kw)))
         except BaseException:  # noqa
             pass
     eval_parser(ctx, drv, [mangle(rng, u) for u in base])
-    eval_torrents(ctx, drv, [gen_torrent(rng) for _ in range(ctx.n(1200, 40000))])
+    eval_torrents(ctx, drv, [gen_torrent(rng) for _ in range(ctx.n(3000, 40000))])
     ctx.exhaustive = False
     for f in ctx.open_findings():
         if f['id'] not in ctx.known:
